@@ -403,6 +403,18 @@ func (b *Bitmap) Max() uint64 {
 	}
 
 	hb, c := b.Containers.Last()
+	if c.N() == 0 {
+		// The last container was emptied but not removed yet: the maximum
+		// is in the last container that still holds a value.
+		var max uint64
+		citer, _ := b.Containers.Iterator(0)
+		for citer.Next() {
+			if k, c := citer.Value(); c.N() > 0 {
+				max = k<<16 | uint64(c.max())
+			}
+		}
+		return max
+	}
 	lb := c.max()
 	return hb<<16 | uint64(lb)
 }
